@@ -13,6 +13,8 @@ def main(argv=None):
     ap.add_argument('--replay', help='print the violations stored in a replay file and re-run their rules')
     ap.add_argument('--list', action='store_true')
     ap.add_argument('--no-write', action='store_true')
+    ap.add_argument('--strict-selftest', action='store_true',
+                    help='a self-test failure (mutant not reported / twin not silent) makes the run exit 2')
     args = ap.parse_args(argv)
     try:
         seed = int(os.environ.get('VERIF_SEED', '0'))
@@ -34,7 +36,9 @@ def main(argv=None):
             return engine.check_property(data['property'], 'quick', seed, write=False)
         if not args.prop:
             ap.error('property id required')
-        return engine.check_property(args.prop, args.tier, seed, write=not args.no_write)
+        return engine.check_property(args.prop, args.tier, seed, write=not args.no_write,
+                                     strict_selftest=args.strict_selftest or
+                                     os.environ.get('OMSTATIC_STRICT_SELFTEST') == '1')
     except Exception as e:  # never let a traceback look like a violation
         traceback.print_exc()
         print(f'ANALYSIS-ERROR property={args.prop} checker crashed: {type(e).__name__}: {e}')
